@@ -186,6 +186,7 @@ bool parseScenario(const std::string &path, Scenario &sc, std::string &err)
                 }
                 sc.diskFaults.push_back(f);
             }
+            else if (k == "snapshot") { SnapSpec sp; sp.label = t.at(1); if (t.at(2) == "at") sp.atUs = U(t.at(3)); else { sp.after = t.at(3); if (t.size() > 4) sp.atUs = U(t[4]); } sc.snaps.push_back(sp); }
             else if (k == "sigterm") { if (t.at(1) == "at") sc.sigtermAtUs = U(t.at(2)); else if (t.at(1) == "after") sc.sigtermAfter = t.at(2); }
             else if (k == "mode") { sc.mode = t.at(1); sc.modeArgs.assign(t.begin() + 2, t.end()); }
             else { err = "line " + std::to_string(ln) + ": unknown directive " + k; return false; }
